@@ -45,11 +45,8 @@ def showState (s : State) : String :=
 structure ChainProg where
   st : Option State     -- none = no chain / halted
 
-def allParamNames : List String :=
-  ["auth/FeeMultipliers", "auth/MaxMemoCharacters", "auth/TxSigLimit", "gov/acl", "gov/daoOwner", "gov/upgrade",
-   "pos/DowntimeJailDuration", "pos/MaxEvidenceAge", "pos/MaxValidators", "pos/MinSignedPerWindow",
-   "pos/ProposerRewardPercentage", "pos/SignedBlocksWindow", "pos/SlashFractionDoubleSign", "pos/SlashFractionDowntime",
-   "pos/StakeDenom", "pos/StakeMinimum", "pos/UnstakingTime"]
+/-- the registered parameters of the three modules, regenerated from the `ParamSetPairs` of the source on every run -/
+def allParamNames : List String := Posmint.Generated.allParamNames
 
 /-- walk the `acc a b` / `val a t j` groups of an init line -/
 def parseGenesis : List String → List (Addr × Int) × List (Addr × Int)
